@@ -16,6 +16,9 @@ type vFidRec struct {
 }
 
 type vRig struct {
+	// lite: a small concrete alphabet (fids 0..1, eight operations, at most one
+	// walk name, no file-system failures) for long sequences
+	lite  bool
 	fs    *vStubFS
 	sess  *session
 	recs  []vFidRec   // reference table
@@ -148,14 +151,21 @@ const vNOps = 11
 // reference table by the rules of the property.
 func (r *vRig) vStep() {
 	s := r.sess
-	op := ndChoice("op", vNOps)
-	fid := Fid(ndU32("op.fid"))
+	var op int
+	var fid Fid
+	if r.lite {
+		op = ndChoice("op", 8)
+		fid = Fid(ndChoice("op.fid", 2))
+	} else {
+		op = ndChoice("op", vNOps)
+		fid = Fid(ndU32("op.fid"))
+	}
 	i := r.find(fid)
 	switch op {
 	case 0: // Attach
 		afid := NOFID
 		afidBound := -1
-		if ndChoice("op.useafid", 2) == 1 {
+		if !r.lite && ndChoice("op.useafid", 2) == 1 {
 			afid = Fid(ndU32("op.afid"))
 			afidBound = r.find(afid)
 		}
@@ -194,12 +204,23 @@ func (r *vRig) vStep() {
 			vReach("c08.unbind")
 		}
 	case 3: // Walk
-		newfid := Fid(ndU32("op.newfid"))
+		var newfid Fid
+		var nn int
+		if r.lite {
+			newfid = Fid(ndChoice("op.newfid", 2))
+			nn = ndChoice("op.nnames", 2)
+		} else {
+			newfid = Fid(ndU32("op.newfid"))
+			nn = ndChoice("op.nnames", 3)
+		}
 		j := r.find(newfid)
-		nn := ndChoice("op.nnames", 3)
 		names := make([]string, nn)
 		for k := range names {
-			names[k] = ndString("op.name", 1+ndChoice("op.namelen", 2))
+			if r.lite {
+				names[k] = "a"
+			} else {
+				names[k] = ndString("op.name", 1+ndChoice("op.namelen", 2))
+			}
 		}
 		valid := ValidPath(names) >= 0
 		nents := len(r.fs.ents)
@@ -270,7 +291,10 @@ func (r *vRig) vStep() {
 	case 5: // Create
 		mode := Flag(ndU8("op.mode"))
 		perm := ndU32("op.perm")
-		name := ndString("op.cname", 1+ndChoice("op.cnamelen", 2))
+		name := "a"
+		if !r.lite {
+			name = ndString("op.cname", 1+ndChoice("op.cnamelen", 2))
+		}
 		special := vOr(name == ".", name == "..")
 		nents := len(r.fs.ents)
 		_, _, err := s.Create(vBG, fid, name, perm, mode)
@@ -304,7 +328,11 @@ func (r *vRig) vStep() {
 		}
 	case 6, 7: // Read, Write
 		off := ndI64("op.off")
-		p := make([]byte, ndChoice("op.plen", 3))
+		plen := 1
+		if !r.lite {
+			plen = ndChoice("op.plen", 3)
+		}
+		p := make([]byte, plen)
 		var n int
 		var err error
 		var before int
@@ -380,3 +408,42 @@ func VerifC08_StepQuick()    { vC08Step(2, 1) }
 func VerifC08_StepThorough() { vC08Step(3, 1) }
 func VerifC08_SeqQuick()     { vC08Step(0, 2) }
 func VerifC08_SeqThorough()  { vC08Step(1, 3) }
+
+// long sequences over the small alphabet: pre-state of 0..1 bound fids (fid 0,
+// directory or file, unopened or open), then `steps` operations
+func vC08Deep(steps int) {
+	r := vNewRig(0)
+	r.lite = true
+	r.fs.noFail = true
+	if ndChoice("npre", 2) == 1 {
+		ent := r.fs.newEnt(ndChoice("pre.isdir", 2) == 1)
+		rec := vFidRec{fid: 0, ent: ent}
+		sf := &SFid{Ent: ent}
+		if ndChoice("pre.open", 2) == 1 {
+			rec.open = true
+			rec.mode = Flag(ndU8("pre.mode"))
+			sf.Mode = rec.mode
+			if ent.dir {
+				sf.File = NewReaddir(NewCodec(), func(context.Context) ([]Dir, error) { return nil, nil })
+			} else {
+				ent.file = &vStubFile{ent: ent}
+				rec.file = ent.file
+				sf.File = ent.file
+			}
+		}
+		r.sess.refs.Store(Fid(0), sf)
+		r.recs = append(r.recs, rec)
+		r.bound = append(r.bound, ent)
+	}
+	r.vCheckTable("pre-state")
+	for k := 0; k < steps; k++ {
+		r.vStep()
+		r.vCheckTable("after the operation")
+		r.vCheckUnlocked()
+	}
+	r.vStopAndAccount()
+	vReach("c08.deep.done")
+}
+
+func VerifC08_DeepQuick()    { vC08Deep(3) }
+func VerifC08_DeepThorough() { vC08Deep(4) }
